@@ -122,20 +122,81 @@ type response struct {
 	panic string
 }
 
+// extra request attributes besides method, target and Host
+type reqAttrs struct {
+	hdr     http.Header
+	urlHost string // r.URL.Host (as in an absolute-form request URI), r.Host is still the Host header
+	remote  string // r.RemoteAddr
+}
+
+// browserTarget turns a link as an HTML/playlist parser hands it over into the request
+// target a browser would send: ASCII tab/CR/LF are removed (URL standard), other bytes that
+// cannot appear in a request line are percent-encoded.  It never fails.
+func browserTarget(t string) string {
+	var b strings.Builder
+	for i := 0; i < len(t); i++ {
+		ch := t[i]
+		switch {
+		case ch == '\t' || ch == '\n' || ch == '\r':
+		case ch <= 0x20 || ch >= 0x7f || strings.IndexByte("\"<>`{}|\\^", ch) >= 0:
+			fmt.Fprintf(&b, "%%%02X", ch)
+		default:
+			b.WriteByte(ch)
+		}
+	}
+	return b.String()
+}
+
+// newRequest builds a server-side request without going through a parser that panics on
+// malformed input.
+func newRequest(method, target, host string, body io.Reader) *http.Request {
+	target = browserTarget(target)
+	pathPart, query := target, ""
+	if i := strings.IndexByte(target, '?'); i >= 0 {
+		pathPart, query = target[:i], target[i+1:]
+	}
+	u := &url.URL{Path: pathPart, RawQuery: query}
+	if dec, err := url.PathUnescape(pathPart); err == nil {
+		u.Path, u.RawPath = dec, pathPart
+	}
+	if body == nil {
+		body = http.NoBody
+	}
+	return &http.Request{Method: method, URL: u, Proto: "HTTP/1.1", ProtoMajor: 1, ProtoMinor: 1,
+		Header: http.Header{}, Body: io.NopCloser(body), Host: host, RequestURI: target, RemoteAddr: "127.0.0.1:54321"}
+}
+
 func do(method, target, host string, form url.Values) response {
+	return doWith(method, target, host, form, nil)
+}
+
+func doWith(method, target, host string, form url.Values, at *reqAttrs) response {
 	var body io.Reader
 	if form != nil {
 		body = strings.NewReader(form.Encode())
 	}
-	req := httptest.NewRequest(method, target, body)
+	req := newRequest(method, target, host, body)
 	// reading file contents would wait for peers: bound every request
 	rctx, cancel := context.WithTimeout(bg, 150*time.Millisecond)
 	defer cancel()
 	req = req.WithContext(rctx)
 	if form != nil {
 		req.Header.Set("Content-Type", "application/x-www-form-urlencoded")
+		req.ContentLength = int64(len(form.Encode()))
 	}
-	req.Host = host
+	if at != nil {
+		for k, vs := range at.hdr {
+			for _, v := range vs {
+				req.Header.Add(k, v)
+			}
+		}
+		if at.urlHost != "" {
+			req.URL.Scheme, req.URL.Host = "http", at.urlHost
+		}
+		if at.remote != "" {
+			req.RemoteAddr = at.remote
+		}
+	}
 	rec := httptest.NewRecorder()
 	var r response
 	done := make(chan struct{})
@@ -294,6 +355,120 @@ func runRoute(c *vhlib.Ctx, method string, ri, hi int) {
 	}
 }
 
+// ---------------------------------------------------------------- nothing but r.Host decides
+
+// Request attributes a page in the user's browser (or anything in front of the server) can
+// set, with a value that looks local and one that looks foreign.  The decision of
+// checkLocal must depend on r.Host alone: a foreign Host stays refused whatever these say,
+// a local Host is answered as without them.
+type attrT struct {
+	name string
+	mk   func(v string) *reqAttrs // v is "host:port"-like
+	qs   func(v string) string    // extra query string, if the attribute is a parameter
+}
+
+func hdrAttr(k string, f func(v string) string) func(string) *reqAttrs {
+	return func(v string) *reqAttrs { return &reqAttrs{hdr: http.Header{k: {f(v)}}} }
+}
+
+var attrs = []attrT{
+	{"origin", hdrAttr("Origin", func(v string) string { return "http://" + v }), nil},
+	{"origin-noport", hdrAttr("Origin", func(v string) string { return "http://" + strings.SplitN(strings.TrimSuffix(v, ":8088"), "]:", 2)[0] }), nil},
+	{"referer", hdrAttr("Referer", func(v string) string { return "http://" + v + "/" }), nil},
+	{"x-forwarded-host", hdrAttr("X-Forwarded-Host", func(v string) string { return v }), nil},
+	{"x-forwarded-for", hdrAttr("X-Forwarded-For", func(v string) string { return strings.TrimSuffix(v, ":8088") }), nil},
+	{"forwarded", hdrAttr("Forwarded", func(v string) string { return "for=" + strings.TrimSuffix(v, ":8088") + ";host=" + v + ";proto=http" }), nil},
+	{"x-real-ip", hdrAttr("X-Real-Ip", func(v string) string { return strings.TrimSuffix(v, ":8088") }), nil},
+	{"x-host", hdrAttr("X-Host", func(v string) string { return v }), nil},
+	{"x-original-host", hdrAttr("X-Original-Host", func(v string) string { return v }), nil},
+	{"x-http-method-override", func(string) *reqAttrs {
+		return &reqAttrs{hdr: http.Header{"X-Http-Method-Override": {"GET"}, "X-Method-Override": {"GET"}}}
+	}, nil},
+	{"cookie", hdrAttr("Cookie", func(v string) string { return "host=" + v + "; local=1; origin=http://" + v }), nil},
+	{"authorization", hdrAttr("Authorization", func(v string) string { return "Basic bG9jYWxob3N0OmxvY2FsaG9zdA==" }), nil},
+	{"host-header-copy", func(v string) *reqAttrs { return &reqAttrs{hdr: http.Header{"Host": {v}}} }, nil},
+	{"url-host", func(v string) *reqAttrs { return &reqAttrs{urlHost: v} }, nil},
+	{"remote-addr", func(v string) *reqAttrs {
+		if strings.HasPrefix(v, "localhost") {
+			return &reqAttrs{remote: "127.0.0.1:4444"}
+		}
+		return &reqAttrs{remote: "203.0.113.9:4444"}
+	}, nil},
+	{"query", func(string) *reqAttrs { return &reqAttrs{} }, func(v string) string {
+		return "host=" + url.QueryEscape(v) + "&Host=" + url.QueryEscape(v) + "&origin=" + url.QueryEscape("http://"+v) + "&local=1&_method=GET"
+	}},
+	{"all", func(v string) *reqAttrs {
+		return &reqAttrs{urlHost: v, hdr: http.Header{"Origin": {"http://" + v}, "Referer": {"http://" + v + "/"}, "X-Forwarded-Host": {v},
+			"Forwarded": {"host=" + v}, "Host": {v}, "Cookie": {"host=" + v}}}
+	}, nil},
+}
+
+var attrValues = map[string][]string{
+	"refuse": {"localhost:8088", "127.0.0.1:8088", "[::1]:8088"}, // make a foreign Host look local
+	"local":  {"evil.com:8088"},                                  // a local Host with foreign-looking attributes
+}
+
+func runAttr(c *vhlib.Ctx, method string, ri, hi, ai, vi int) {
+	op := fmt.Sprintf("x attr %s %d %d %d %d", method, ri, hi, ai, vi)
+	c.Emit(op, "x")
+	if ri < 0 || ri >= len(routes) || hi < 0 || hi >= len(hosts) || ai < 0 || ai >= len(attrs) {
+		return
+	}
+	hst := hosts[hi]
+	vals := attrValues[hst.class]
+	if vi < 0 || vi >= len(vals) {
+		return
+	}
+	rt, at := routes[ri], attrs[ai]
+	mkreq := func(with bool) (response, string, string) {
+		t := ensureBaseline()
+		hs := t.Hash.String()
+		target := rt.target(hs, addedHash)
+		var form url.Values
+		if rt.form != nil && (method == "POST" || method == "PUT") {
+			form = rt.form(hs, addedHash)
+		}
+		var ra *reqAttrs
+		if with {
+			ra = at.mk(vals[vi])
+			if at.qs != nil {
+				if strings.Contains(target, "?") {
+					target += "&" + at.qs(vals[vi])
+				} else {
+					target += "?" + at.qs(vals[vi])
+				}
+			}
+		}
+		before := snapshot()
+		r := doWith(method, target, hst.host, form, ra)
+		return r, before, snapshot()
+	}
+	r, before, after := mkreq(true)
+	c.Count("attr:"+hst.class+":"+at.name+":"+strconv.Itoa(r.code), op, true)
+	label := at.name + ":" + rt.name + ":" + method
+	if r.panic != "" {
+		violate(c, "panic:route:"+rt.name, fmt.Sprintf("%s %s Host=%q with %s=%q: %s", method, rt.name, hst.host, at.name, vals[vi], r.panic), []string{op})
+		return
+	}
+	switch hst.class {
+	case "refuse":
+		refused := r.code == http.StatusForbidden || r.code == http.StatusBadRequest ||
+			rt.name == "unclean" && r.code/100 == 3
+		if !refused {
+			violate(c, "not-refused:attr:"+label, fmt.Sprintf("%s %s with the foreign Host %q and %s = %q answered %d, not refused", method, rt.name, hst.host, at.name, vals[vi], r.code), []string{op})
+		}
+		if before != after {
+			violate(c, "refused-but-changed:attr:"+label, fmt.Sprintf("%s %s with the foreign Host %q and %s = %q changed the state: %s -> %s", method, rt.name, hst.host, at.name, vals[vi], before, after), []string{op})
+		}
+	case "local":
+		// the property says local hosts work: the answer must be the one given without the attribute
+		base, _, _ := mkreq(false)
+		if base.panic == "" && base.code != r.code && at.qs == nil {
+			violate(c, "local-host-affected:attr:"+label, fmt.Sprintf("%s %s with the local Host %q answers %d, but %d when %s = %q is added", method, rt.name, hst.host, base.code, r.code, at.name, vals[vi]), []string{op})
+		}
+	}
+}
+
 // ---------------------------------------------------------------- the real server
 
 // The server that storrent really runs: http.Serve(addr) registers the handlers on
@@ -322,7 +497,9 @@ func startReal() {
 }
 
 // doReal sends one request over TCP with exactly the given Host header.
-func doReal(method, target, host string) response {
+func doReal(method, target, host string) response { return doRealH(method, target, host, nil) }
+
+func doRealH(method, target, host string, hdr http.Header) response {
 	var r response
 	conn, err := net.DialTimeout("tcp", realAddr, 5*time.Second)
 	if err != nil {
@@ -331,7 +508,16 @@ func doReal(method, target, host string) response {
 	}
 	defer conn.Close()
 	conn.SetDeadline(time.Now().Add(5 * time.Second))
-	fmt.Fprintf(conn, "%s %s HTTP/1.1\r\nHost: %s\r\nConnection: close\r\nContent-Length: 0\r\n\r\n", method, target, host)
+	extra := ""
+	for k, vs := range hdr {
+		if k == "Host" {
+			continue // a second Host line makes net/http reject the request before any handler
+		}
+		for _, v := range vs {
+			extra += k + ": " + v + "\r\n"
+		}
+	}
+	fmt.Fprintf(conn, "%s %s HTTP/1.1\r\nHost: %s\r\n%sConnection: close\r\nContent-Length: 0\r\n\r\n", method, browserTarget(target), host, extra)
 	resp, err := http.ReadResponse(bufio.NewReader(conn), &http.Request{Method: method})
 	if err != nil {
 		r.panic = "read: " + err.Error()
@@ -379,6 +565,42 @@ func runReal(c *vhlib.Ctx, method, target string, hi int, label string) {
 	}
 }
 
+// runRealAttr: a foreign Host plus a local-looking header, over TCP through the real server
+func runRealAttr(c *vhlib.Ctx, method string, ri, hi, ai, vi int) {
+	op := fmt.Sprintf("x realattr %s %d %d %d %d", method, ri, hi, ai, vi)
+	c.Emit(op, "x")
+	if ri < 0 || ri >= len(routes) || hi < 0 || hi >= len(hosts) || ai < 0 || ai >= len(attrs) || hosts[hi].class != "refuse" ||
+		vi < 0 || vi >= len(attrValues["refuse"]) {
+		return
+	}
+	startReal()
+	if realErr != nil {
+		c.Count("real:unavailable", op, false)
+		return
+	}
+	t := ensureBaseline()
+	rt, at, hst := routes[ri], attrs[ai], hosts[hi]
+	ra := at.mk(attrValues["refuse"][vi])
+	if ra.hdr == nil {
+		return
+	}
+	target := rt.target(t.Hash.String(), addedHash)
+	before := snapshot()
+	r := doRealH(method, target, hst.host, ra.hdr)
+	after := snapshot()
+	c.Count("realattr:"+at.name+":"+strconv.Itoa(r.code), op, true)
+	if r.panic != "" {
+		violate(c, "real-server-error:attr:"+at.name, fmt.Sprintf("%s %s: %s", method, target, r.panic), []string{op})
+		return
+	}
+	if r.code != http.StatusForbidden && r.code != http.StatusBadRequest {
+		violate(c, "not-refused:defaultmux:attr:"+at.name+":"+rt.name+":"+method, fmt.Sprintf("%s %s with the foreign Host %q and %s = %q answered %d through the real server", method, rt.name, hst.host, at.name, attrValues["refuse"][vi], r.code), []string{op})
+	}
+	if before != after {
+		violate(c, "refused-but-changed:defaultmux:attr:"+at.name+":"+rt.name+":"+method, "state changed", []string{op})
+	}
+}
+
 // ---------------------------------------------------------------- injection
 
 var fields = []string{"name", "name-single", "name-magnet", "filepath", "dirpath", "dir-first", "dir-middle", "dir-last", "dir-twice", "file-siblings", "tracker-url", "tracker-error",
@@ -417,6 +639,9 @@ var payloads = []string{
 	"%M%c0%8a%M%C0%BC%e2%80%a8",
 	"%M%u000a%M%%0A%0",
 	"%M%20%23%3F%2c%M%3c%3e",
+	// each dangerous byte ALONE in an otherwise plain name (a fast path for "plain" strings
+	// must not let it through)
+	"%M\nx%M", "%M\rx%M", "%M<x%M", "%M>x%M", "%M\"x%M", "%M'x%M", "%M&x%M", "%M x%M", "%M,x%M", "%Mx%%M", "%M?x%M", "%M#x%M", "%M\tx%M", "%M\x00x%M", "%M\x7fx%M", "%M;x%M", "%M\\x%M",
 }
 
 // encoded forms of the dangerous bytes, spliced into generated strings
@@ -1067,6 +1292,18 @@ func main() {
 				ri, _ := strconv.Atoi(f[3])
 				hi, _ := strconv.Atoi(f[4])
 				runRoute(c, f[2], ri, hi)
+			case len(f) == 7 && f[0] == "x" && f[1] == "attr":
+				var v [4]int
+				for i := range v {
+					v[i], _ = strconv.Atoi(f[3+i])
+				}
+				runAttr(c, f[2], v[0], v[1], v[2], v[3])
+			case len(f) == 7 && f[0] == "x" && f[1] == "realattr":
+				var v [4]int
+				for i := range v {
+					v[i], _ = strconv.Atoi(f[3+i])
+				}
+				runRealAttr(c, f[2], v[0], v[1], v[2], v[3])
 			case len(f) == 6 && f[0] == "x" && f[1] == "real":
 				hi, _ := strconv.Atoi(f[4])
 				runReal(c, f[2], string(vhlib.UnHex(f[3])), hi, f[5])
@@ -1084,6 +1321,28 @@ func main() {
 		for _, m := range methods {
 			for hi := range hosts {
 				runRoute(c, m, ri, hi)
+			}
+		}
+	}
+	// (1a) nothing but r.Host decides: every route x {GET, POST} x foreign and local Hosts x
+	// every other attribute of the request
+	for ri := range routes {
+		for _, m := range []string{"GET", "POST"} {
+			for hi, h := range hosts {
+				if !(h.name == "evil.com:p" || h.name == "localhost.evil.com:p" || h.name == "evil.com" || h.name == "localhost:p" || h.name == "[::1]:p") {
+					continue
+				}
+				if h.class == "local" && m == "GET" && (routes[ri].name == "file" || routes[ri].name == "unclean") {
+					continue // would wait for file data that no peer delivers; POST covers the route
+				}
+				for ai := range attrs {
+					for vi := range attrValues[h.class] {
+						if h.name != "evil.com:p" && vi > 0 {
+							continue
+						}
+						runAttr(c, m, ri, hi, ai, vi)
+					}
+				}
 			}
 		}
 	}
@@ -1120,6 +1379,16 @@ func main() {
 						runReal(c, m, tg.target, hi, tg.label)
 					}
 				}
+			}
+		}
+	}
+	for ri, rt := range routes {
+		if rt.name != "root" && rt.name != "delete" && rt.name != "set" && rt.name != "file" {
+			continue
+		}
+		for _, m := range []string{"GET", "POST"} {
+			for ai := range attrs {
+				runRealAttr(c, m, ri, 3, ai, 0)
 			}
 		}
 	}
@@ -1182,6 +1451,15 @@ func main() {
 	}
 	for _, tk := range encTokens {
 		runM3U(c, "localhost:8088", make([]byte, 20), []string{"a" + tk + "b"})
+	}
+	// every byte value alone in an otherwise plain string, as file name and as directory name
+	for b := 0; b < 256; b++ {
+		nm := "ab" + string([]byte{byte(b)}) + "cd"
+		runPU(c, []string{nm})
+		runPU(c, []string{nm, "e.mp3"})
+		runM3U(c, "localhost:8088", make([]byte, 20), []string{"dir", nm})
+		runM3U(c, "localhost:8088", make([]byte, 20), []string{nm, "e.mp3"})
+		runHE(c, nm)
 	}
 	for i := 0; i < c.N; i++ {
 		genCorr(c, c.R)
